@@ -58,7 +58,7 @@ def values_at(axis, level, n):
 
 
 def describe(tier):
-    return {'bases': ['PEK', 'KEK', 'MSKPEMK'], 'deviation_bound': 3, 'axes': AXES, 'precisions': [3, 4, 5, 6, 7, 8]}
+    return {'bases': ['PEK', 'KEK', 'MSKPEMK'], 'long_base': 'PEMKACDFGHIK at deviation <= 2', 'deviation_bound': 3, 'axes': AXES, 'precisions': [3, 4, 5, 6, 7, 8]}
 
 
 def shards(tier):
@@ -67,7 +67,13 @@ def shards(tier):
         for sh in space.dev_shards(AXES, 3):
             sh['seq'] = seq
             out.append(sh)
+    for sh in space.dev_shards(AXES, 2):       # a long peptide (two-digit positions, more shifts than the rounding budget of one)
+        sh['seq'] = LONG_BASE
+        out.append(sh)
     return out
+
+
+LONG_BASE = 'PEMKACDFGHIK'
 
 
 def gen(shard, tier):
